@@ -51,6 +51,18 @@ def run(run, harness, replay=None):
         tp = os.path.join(run.work, "mutants.ndjson")
         run_harness(harness, ["types-mutants", tp, "120" if tier == "quick" else "2500", "0" if tier == "quick" else "1"], env={"VERIF_SEED": run.seed}, timeout=7200)
         events = read_ndjson(tp)
+    if not replay:
+        # the operator x operand-type matrix (Gen_OpMatrix.tla): ill-typed applications must be rejected
+        from opmatrix import run_matrix
+        mev, mmism, mill = run_matrix(run, harness)
+        mg = {}
+        for idx, detail in mmism:
+            if detail[0] in ("ill_typed_program_accepted", "checker_panics_on_ill_typed_program"):
+                mg.setdefault((detail[0], mev[idx]["id"].split("-")[1], mev[idx]["id"].split("-")[2]), []).append(mev[idx])
+        for (what, form, op), items in sorted(mg.items()):
+            e = items[0]
+            run.fail("matrix:%s:%s:%s" % (what, form, op), "%d applications of %s %s: %s; first:\n%s" % (len(items), form, op, what, e["src"]),
+                     {"event": {k: e[k] for k in ("ev", "id", "rule", "base", "prog", "accepted", "panic", "roundtrip", "src")}, "count": len(items)})
     types = [e for e in events if e["ev"] == "Types"]
     run.cov["printer_mismatch"] = len([e for e in events if e["ev"] == "PrinterMismatch"])
     run.cov["evaluations"] = len(types)
